@@ -912,11 +912,12 @@ def find_distributed_partition(
 
     direct_preds_getter = DirectPredecessorsGetter()
 
-    def get_materialized_predecessors(ary: Array) -> OrderedSet[Array]:
+    def get_materialized_predecessors(ary: ArrayOrNames) -> OrderedSet[Array]:
         materialized_preds: OrderedSet[Array] = OrderedSet()
         for pred in direct_preds_getter(ary):
-            assert isinstance(pred, Array)
-            if pred in materialized_arrays:
+            # (a predecessor that is not an array is the container of a named
+            # result, e.g. a loopy call: look through it)
+            if isinstance(pred, Array) and pred in materialized_arrays:
                 materialized_preds.add(pred)
             else:
                 materialized_preds |= get_materialized_predecessors(pred)
